@@ -2,6 +2,7 @@ package vc
 
 import (
 	"fmt"
+	"go/token"
 	"go/types"
 	"regexp"
 	"strconv"
@@ -182,6 +183,28 @@ func (f *fnState) findLocal(name string) *ssa.Alloc {
 	if len(found) == 0 {
 		return nil
 	}
+	// inside a loop invariant a name means the variable of that name declared in (or visible at the end of) the loop
+	if !f.sitePos.IsValid() && f.invLookup != nil && nth == 1 && !strings.Contains(name, "#") && len(found) > 1 {
+		var end token.Pos
+		for b := range f.invLookup.blocks {
+			for _, ins := range b.Instrs {
+				if ins.Pos() > end {
+					end = ins.Pos()
+				}
+			}
+		}
+		if end.IsValid() {
+			if sc := f.fn.Pkg.Pkg.Scope().Innermost(end); sc != nil {
+				if _, obj := sc.LookupParent(want, end); obj != nil {
+					for _, a := range found {
+						if a.Pos() == obj.Pos() {
+							return a
+						}
+					}
+				}
+			}
+		}
+	}
 	// at a source site the name means what Go's scoping says it means there
 	if f.sitePos.IsValid() && nth == 1 && !strings.Contains(name, "#") && len(found) > 1 {
 		if sc := f.fn.Pkg.Pkg.Scope().Innermost(f.sitePos); sc != nil {
@@ -255,7 +278,7 @@ func (f *fnState) specVal(e spec.Expr, c *specCtx) SV {
 		switch u := typeUnder(b.Typ).(type) {
 		case *types.Slice:
 			if f.quant > 0 || !isByte(u.Elem()) {
-				return f.heapAccess(c.env, fmt.Sprintf("(elt %s %s)", b.T, i.T), u.Elem(), nil, nil, nil)
+				return f.heapAccess(c.env, fmt.Sprintf("(elt (s-loc %s) %s)", b.T, i.T), u.Elem(), nil, nil, nil)
 			}
 			return f.heapAccess(c.env, locOff(fmt.Sprintf("(s-loc %s)", b.T), i.T), u.Elem(), nil, nil, nil)
 		case *types.Array:
@@ -266,8 +289,12 @@ func (f *fnState) specVal(e spec.Expr, c *specCtx) SV {
 				return intSV(fmt.Sprintf("(sbyte %s %s)", b.T, i.T))
 			}
 		case *types.Map:
+			// Go semantics: the zero value when the key is absent
 			code := f.keyCode(i)
-			return f.heapAccess(c.env, mapSlot(b.T, code), u.Elem(), nil, nil, nil)
+			dom := f.get(c.env, "M$dom", "(Array Int (Array Int Bool))").T
+			present := fmt.Sprintf("(select (select %s %s) %s)", dom, b.T, code)
+			v := f.heapAccess(c.env, mapSlot(b.T, code), u.Elem(), nil, nil, nil)
+			return f.iteSV(present, v, zeroValue(u.Elem()))
 		}
 		if strings.HasPrefix(b.Sort, "(Array") {
 			return SV{Sort: arrayValSort(b.Sort), T: fmt.Sprintf("(select %s %s)", b.T, i.T)}
@@ -359,6 +386,8 @@ func typeUnder(t types.Type) types.Type {
 }
 
 func (f *fnState) specIdent(name string, c *specCtx) SV {
+	f.invLookup = c.invLoop
+	defer func() { f.invLookup = nil }()
 	if v, ok := c.bound[name]; ok {
 		return v
 	}
